@@ -12,5 +12,5 @@ Theorem delegations_all_present :
   covers src_delegations "src/quantity.rs" (["new"; "get"] ++ rounding_fns)
   && covers src_delegations "src/si/angle.rs" ("atan2" :: angle_fns)
   && covers src_delegations "src/si/ratio.rs" (ratio_to_angle ++ ratio_to_ratio)
-  && covers src_delegations "src/system.rs" (value_fns ++ predicate_fns) = true.
+  && covers src_delegations "src/system.rs" (value_fns ++ predicate_fns ++ forwarded_fns) = true.
 Proof. vm_compute. reflexivity. Qed.
